@@ -434,7 +434,12 @@ func c06Run(c core.Case) core.Result {
 		}
 		sb.WriteString("{{ " + chain + " }}/{{ loop.length }}{{ loop.parent.length }}")
 		for d := depth - 1; d >= 0; d-- {
-			sb.WriteString(">{% else %}e" + itoa(d) + "{% endfor %}")
+			if d >= 1 {
+				// the else branch of an empty inner loop still sees the enclosing loop's metadata
+				sb.WriteString(">{% else %}e" + itoa(d) + ":{{ loop.index }}/{{ loop.length }}{% if loop.last %}L{% endif %}{% endfor %}")
+			} else {
+				sb.WriteString(">{% else %}e" + itoa(d) + "{% endfor %}")
+			}
 		}
 		var rec func(d int, idx []int) string
 		rec = func(d int, idx []int) string {
@@ -446,6 +451,13 @@ func c06Run(c core.Case) core.Result {
 				return strings.Join(parts, ".") + "/" + itoa(lens[depth-1]) + itoa(lens[depth-2])
 			}
 			if lens[d] == 0 {
+				if d >= 1 {
+					last := ""
+					if idx[d-1] == lens[d-1] {
+						last = "L"
+					}
+					return "e" + itoa(d) + ":" + itoa(idx[d-1]) + "/" + itoa(lens[d-1]) + last
+				}
 				return "e" + itoa(d)
 			}
 			s := ""
